@@ -693,7 +693,90 @@ def run_sweep(ctx):
                     ctx.check(canary(), ctx.cur_key + "|library-unusable-afterwards")
                 guarded("cp_rsa_%s|outlen=keylen%+d" % (fn, delta), [fn, delta], f, budget=600)
 
-    for s in (s1, s2, s3, s4, s5, s6, s7):
+    # ---------------------------------------------------------------- S8 exponent / scalar lengths up to the bignum capacity
+    def s8():
+        m_ = (1 << 1023) | rng.getrandbits(1023) | 1
+        base = rng.getrandbits(1000)
+        for fn in ("bn_mxp_basic", "bn_mxp_slide", "bn_mxp_monty"):
+            for bits in (1, 64, 512, 1023, 1024, 1025, 1100, 2047, 2048, 2049, CAP * W - 1, CAP * W):
+                if not mine():
+                    continue
+
+                def f(fn=fn, bits=bits):
+                    e = (1 << (bits - 1)) | rng.getrandbits(bits - 1) if bits > 1 else 1
+                    R.bn_put(a, base)
+                    R.bn_put(b, e)
+                    R.bn_put(d, m_)
+                    R.bn_put(c, 7)
+                    r = R.call(fn, c, a, b, d)
+                    if not r.caught:
+                        ctx.check(R.bn_val(c) == pow(base, e, m_), ctx.cur_key + "|value")
+                    else:
+                        ctx.ok()
+                    ctx.check(canary(), ctx.cur_key + "|library-unusable-afterwards")
+                guarded("%s|exponent-bits=%s" % (fn, "capacity%+d" % (bits - CAP * W) if bits >= CAP * W - 1 else
+                                               ("precision%+d" % (bits - 1024) if 1023 <= bits <= 1100 else str(bits))), [fn, bits], f, budget=600)
+        # field / curve exponents far longer than the field
+        ids = R.ep_param_ids()
+        for name, pid in ids[:2] if ctx.quick else ids:
+            R.call("ep_param_set", pid)
+            P = R.ep_params()
+            x = R.fp_new(rng.randrange(2, P["p"]))
+            o = R.fp_new()
+            for fn in ("fp_exp_basic", "fp_exp_slide", "fp_exp_monty"):
+                for bits in (255, 256, 257, 320, 1024, CAP * W):
+                    if not mine():
+                        continue
+
+                    def f(fn=fn, bits=bits):
+                        e = (1 << (bits - 1)) | rng.getrandbits(bits - 1)
+                        R.bn_put(b, e)
+                        r = R.call(fn, o, x, b)
+                        if not r.caught:
+                            xv = R.fp_get(x)[0]
+                            ctx.check(R.fp_get(o)[0] == pow(xv, e, P["p"]), ctx.cur_key + "|value")
+                        else:
+                            ctx.ok()
+                    guarded("%s|exponent-bits=%d" % (fn, bits), [name, fn, bits], f, budget=600)
+            R.free(x)
+            R.free(o)
+
+    # ---------------------------------------------------------------- S9 extension-field encoders at every buffer length
+    def s9():
+        for pname in R.pairing_names()[:1] if ctx.quick else R.pairing_names():
+            R.pairing_set(pname)
+            FB = R.FP_BYTES
+            for deg in (2, 3, 4, 6, 8, 9, 12, 16, 18, 24):
+                wfn, sfn = "fp%d_write_bin" % deg, "fp%d_size_bin" % deg
+                if not R.has(wfn):
+                    continue
+                npar = 4 if deg in (2, 8, 12, 16, 18, 24, 48, 54) and R.has(sfn) else 3
+                elems = {"generic": [rng.randrange(1, R.p) for _ in range(deg)], "one": [1] + [0] * (deg - 1)}
+                # a unitary element: x^(p^(deg/2) - 1) computed by the library itself is C10's business; here conj/inv
+                if R.has("fp%d_conv_cyc" % deg):
+                    t = R.fpx_new(deg, elems["generic"])
+                    R.call("fp%d_conv_cyc" % deg, t, t)
+                    elems["cyclotomic"] = R.fpx_get(t, deg)[0]
+                    R.free(t)
+                for ename, ev in elems.items():
+                    for pack in ((0, 1) if npar == 4 else (None,)):
+                        if not mine():
+                            continue
+
+                        def f(deg=deg, wfn=wfn, ev=ev, pack=pack, npar=npar):
+                            e = R.fpx_new(deg, ev)
+                            full = deg * FB
+                            for L in sorted(set(list(range(0, 8)) + list(range(FB - 2, FB + 4)) + list(range(full // 2 - 2, full // 2 + 4))
+                                                + list(range(full - 3, full + 3)) + [rng.randrange(0, full + 2) for _ in range(6)])):
+                                buf = R.mem(L, 0xEE)
+                                r = R.call(wfn, buf, L, e, pack) if npar == 4 else R.call(wfn, buf, L, e)
+                                ctx.ok()
+                                R.free(buf)
+                            R.free(e)
+                            ctx.check(canary(), ctx.cur_key + "|library-unusable-afterwards")
+                        guarded("%s|%s|pack=%s|all-lengths" % (wfn, ename, pack), [pname, deg, ename, pack], f)
+
+    for s in (s1, s2, s3, s4, s5, s6, s7, s8, s9):
         s()
     ctx.note("functions_exercised", sorted(R.fn_seen))
     ctx.note("error_codes_seen", {str(k): v for k, v in R.err_codes.items()})
